@@ -216,6 +216,31 @@ theorem I1_step (s : State) (a : Step) (h : I1 s) : I1 (step s a) := by
     split
     · exact h
     · exact h
+  | enroll l =>
+    simp only [step]
+    split
+    · rename_i x hx
+      split
+      · obtain ⟨A, B, A', B', hp, hr, hy⟩ := I1_setLoop_cases s l x hx
+        obtain ⟨h1, h2⟩ := h
+        simp only [obs, hp, hr] at h1 h2
+        refine ⟨?_, ?_⟩
+        · intro a
+          have := h1 a
+          simp only [obs, pending, registered, setLoop, hy, pendingOf_push_register, List.range_succ,
+            List.count_append, List.count_singleton] at this ⊢
+          omega
+        · intro a
+          have := h2 a
+          simp only [obs, pending, registered, setLoop, hy, List.count_append] at this ⊢
+          omega
+      · exact h
+    · exact h
+  | setFlag =>
+    simp only [step]
+    split
+    · exact h
+    · exact h
 
 /-! ### I2 -/
 
@@ -278,6 +303,19 @@ theorem I2_step (s : State) (a : Step) (h : I2 s) : I2 (step s a) := by
     split
     · exact h
     · exact h
+  | enroll l =>
+    simp only [step]
+    split
+    · rename_i x hx
+      split
+      · exact I2_set s l _ h (fun hr => h x (List.mem_of_getElem? hx) hr)
+      · exact h
+    · exact h
+  | setFlag =>
+    simp only [step]
+    split
+    · exact h
+    · exact h
 
 /-! ### I3 -/
 
@@ -322,6 +360,19 @@ theorem I3_step (s : State) (a : Step) (h : I3 s) : I3 (step s a) := by
     · exact h
     · exact h
   | acceptorExit =>
+    simp only [step]
+    split
+    · exact h
+    · exact h
+  | enroll l =>
+    simp only [step]
+    split
+    · split
+      · unfold I3 at h ⊢
+        simp only [List.map_append, List.map_cons, List.map_nil, h, List.range_succ]
+      · exact h
+    · exact h
+  | setFlag =>
     simp only [step]
     split
     · exact h
@@ -410,6 +461,24 @@ theorem I4_step (s : State) (a : Step) (h : I4 s) : I4 (step s a) := by
     split
     · exact h
     · exact h
+  | enroll l =>
+    simp only [step]
+    split
+    · rename_i x hx
+      split
+      · refine I4_set s l _ (s.assigned ++ [(s.nextFd, l)]) h (fun p hp => List.mem_append_left _ hp) ?_
+        intro fd hfd
+        simp only [List.mem_append, List.mem_singleton] at hfd ⊢
+        rcases hfd with hfd | hfd
+        · exact Or.inl (h l x hx fd hfd)
+        · injection hfd with hfd; subst hfd; exact Or.inr rfl
+      · exact h
+    · exact h
+  | setFlag =>
+    simp only [step]
+    split
+    · exact h
+    · exact h
 
 /-! ### I5 -/
 
@@ -461,6 +530,19 @@ theorem I5_step (s : State) (a : Step) (h4 : I4 s) (h : I5 s) : I5 (step s a) :=
     · exact h
     · exact h
   | acceptorExit =>
+    simp only [step]
+    split
+    · exact h
+    · exact h
+  | enroll l =>
+    simp only [step]
+    split
+    · split
+      · intro p hp
+        exact List.mem_append_left _ (h p hp)
+      · exact h
+    · exact h
+  | setFlag =>
     simp only [step]
     split
     · exact h
@@ -521,7 +603,9 @@ theorem opened_assigned (s : State) (h : Reachable s) :
 theorem step_exec_register (s : State) (l : Nat) (x : Loop) (fd : Nat) (q : List Task)
     (hx : s.loops[l]? = some x) (hr : x.running = true) (hq : x.queue = Task.register fd :: q) :
     step s (Step.exec l) =
-      { setLoop s l { x with queue := q, conns := x.conns ++ [fd] } with opened := s.opened ++ [(fd, l)] } := by
+      { setLoop s l { x with queue := q, conns := x.conns ++ [fd] } with
+        opened := s.opened ++ [(fd, l)],
+        results := if fd ∈ s.enrolled then s.results ++ [fd] else s.results } := by
   simp only [step, hx, hr, hq, if_true]
 
 theorem exec_serves (l : Nat) (rest : List Task) (fd : Nat) : ∀ (pre : List Task) (s : State) (x : Loop),
@@ -601,5 +685,246 @@ theorem no_stranded_no_leak (s : State) (h : Reachable s) (hf : Final s = true) 
   have hpart := partition s h
   rw [registered_final s hi hf, hp] at hpart
   simpa using hpart
+
+/-! ## enrolments and their results -/
+
+/-- what a step does to the pending descriptors, the enrolments and the results: nothing, or a fresh
+descriptor is queued (possibly enrolled), or a queued descriptor is registered (and answered if enrolled) -/
+theorem step_cases (s : State) (a : Step) :
+    (pending (step s a) = pending s ∧ (step s a).results = s.results ∧ (step s a).enrolled = s.enrolled ∧
+      (step s a).nextFd = s.nextFd) ∨
+    (∃ A B, pending s = A ++ B ∧ pending (step s a) = A ++ [s.nextFd] ++ B ∧ (step s a).nextFd = s.nextFd + 1 ∧
+      (step s a).results = s.results ∧
+      ((step s a).enrolled = s.enrolled ∨ (step s a).enrolled = s.enrolled ++ [s.nextFd])) ∨
+    (∃ A B fd, pending s = A ++ fd :: B ∧ pending (step s a) = A ++ B ∧ (step s a).nextFd = s.nextFd ∧
+      (step s a).enrolled = s.enrolled ∧
+      (step s a).results = if fd ∈ s.enrolled then s.results ++ [fd] else s.results) := by
+  cases a with
+  | accept l =>
+    simp only [step]
+    split
+    · rename_i x hx
+      split
+      · obtain ⟨A, B, A', B', hp, hr, hy⟩ := I1_setLoop_cases s l x hx
+        refine Or.inr (Or.inl ⟨A ++ pendingOf x, B, hp, ?_, rfl, rfl, Or.inl rfl⟩)
+        simp only [pending, setLoop, hy, pendingOf_push_register, List.append_assoc]
+      · exact Or.inl ⟨rfl, rfl, rfl, rfl⟩
+    · exact Or.inl ⟨rfl, rfl, rfl, rfl⟩
+  | enroll l =>
+    simp only [step]
+    split
+    · rename_i x hx
+      split
+      · obtain ⟨A, B, A', B', hp, hr, hy⟩ := I1_setLoop_cases s l x hx
+        refine Or.inr (Or.inl ⟨A ++ pendingOf x, B, hp, ?_, rfl, rfl, Or.inr rfl⟩)
+        simp only [pending, setLoop, hy, pendingOf_push_register, List.append_assoc]
+      · exact Or.inl ⟨rfl, rfl, rfl, rfl⟩
+    · exact Or.inl ⟨rfl, rfl, rfl, rfl⟩
+  | exec l =>
+    simp only [step]
+    split
+    · rename_i x hx
+      split
+      · split
+        · rename_i fd q hq
+          obtain ⟨A, B, A', B', hp, hr, hy⟩ := I1_setLoop_cases s l x hx
+          rw [pendingOf_pop_register x fd q x.running (x.conns ++ [fd]) hq] at hp
+          refine Or.inr (Or.inr ⟨A, pendingOf { running := x.running, queue := q, conns := x.conns ++ [fd] } ++ B,
+            fd, ?_, ?_, rfl, rfl, rfl⟩)
+          · rw [hp]; simp only [List.append_assoc, List.cons_append]
+          · simp only [pending, setLoop, hy, List.append_assoc]
+        · rename_i q hq
+          obtain ⟨A, B, A', B', hp, hr, hy⟩ := I1_setLoop_cases s l x hx
+          rw [pendingOf_pop_sentinel x q false [] hq] at hp
+          refine Or.inl ⟨?_, rfl, rfl, rfl⟩
+          simp only [pending, setLoop, exitLoop, hy] at hp ⊢
+          exact hp.symm
+        · exact Or.inl ⟨rfl, rfl, rfl, rfl⟩
+      · exact Or.inl ⟨rfl, rfl, rfl, rfl⟩
+    · exact Or.inl ⟨rfl, rfl, rfl, rfl⟩
+  | action l =>
+    simp only [step]
+    split
+    · rename_i x hx
+      split
+      · obtain ⟨A, B, A', B', hp, hr, hy⟩ := I1_setLoop_cases s l x hx
+        rw [← pendingOf_queue x false []] at hp
+        refine Or.inl ⟨?_, rfl, rfl, rfl⟩
+        simp only [pending, setLoop, exitLoop, hy] at hp ⊢
+        exact hp.symm
+      · exact Or.inl ⟨rfl, rfl, rfl, rfl⟩
+    · exact Or.inl ⟨rfl, rfl, rfl, rfl⟩
+  | peerClose l fd =>
+    simp only [step]
+    split
+    · rename_i x hx
+      split
+      · obtain ⟨A, B, A', B', hp, hr, hy⟩ := I1_setLoop_cases s l x hx
+        rw [← pendingOf_queue x x.running (x.conns.erase fd)] at hp
+        refine Or.inl ⟨?_, rfl, rfl, rfl⟩
+        simp only [pending, setLoop, hy] at hp ⊢
+        exact hp.symm
+      · exact Or.inl ⟨rfl, rfl, rfl, rfl⟩
+    · exact Or.inl ⟨rfl, rfl, rfl, rfl⟩
+  | requestStop => exact Or.inl ⟨rfl, rfl, rfl, rfl⟩
+  | postSentinels =>
+    simp only [step]
+    split
+    · have e1 : (s.loops.map fun x => ({ x with queue := x.queue ++ [Task.sentinel] } : Loop)).map pendingOf
+          = s.loops.map pendingOf := by
+        rw [List.map_map]; apply List.map_congr_left; intro x _; exact pendingOf_push_sentinel x
+      refine Or.inl ⟨?_, rfl, rfl, rfl⟩
+      simp only [pending, e1]
+    · exact Or.inl ⟨rfl, rfl, rfl, rfl⟩
+  | acceptorExit =>
+    simp only [step]
+    split
+    · exact Or.inl ⟨rfl, rfl, rfl, rfl⟩
+    · exact Or.inl ⟨rfl, rfl, rfl, rfl⟩
+  | setFlag =>
+    simp only [step]
+    split
+    · exact Or.inl ⟨rfl, rfl, rfl, rfl⟩
+    · exact Or.inl ⟨rfl, rfl, rfl, rfl⟩
+
+/-- enrolled descriptors were created, once each; results are only given to enrolled descriptors; and an
+enrolled descriptor is either answered (once) or still pending (once) -/
+def J (s : State) : Prop :=
+  (∀ a ∈ s.enrolled, a < s.nextFd) ∧ s.enrolled.Nodup ∧ (∀ a ∈ s.results, a ∈ s.enrolled) ∧
+  (∀ a ∈ s.enrolled, List.count a s.results + List.count a (pending s) = 1)
+
+theorem pending_lt (s : State) (h : I1 s) : ∀ a ∈ pending s, a < s.nextFd := by
+  intro a ha
+  have h1 := h.1 a
+  simp only [obs, List.count_append] at h1
+  have hpos : 0 < List.count a (pending s) := List.count_pos_iff.mpr ha
+  have : 0 < List.count a (List.range s.nextFd) := by omega
+  exact List.mem_range.mp (List.count_pos_iff.mp this)
+
+theorem count_singleton_ne {a b : Nat} (h : b ≠ a) : List.count a [b] = 0 := by
+  simp [h]
+
+theorem J_step (s : State) (a : Step) (h1 : I1 s) (h : J s) : J (step s a) := by
+  obtain ⟨j1, j2, j3, j4⟩ := h
+  rcases step_cases s a with ⟨hp, hr, he, hn⟩ | ⟨A, B, hp, hp', hn, hr, he⟩ | ⟨A, B, fd, hp, hp', hn, he, hr⟩
+  · unfold J
+    rw [hp, hr, he, hn]
+    exact ⟨j1, j2, j3, j4⟩
+  · have hfresh : s.nextFd ∉ pending s := fun hm => Nat.lt_irrefl _ (pending_lt s h1 _ hm)
+    have hold : ∀ a ∈ s.enrolled, List.count a s.results + List.count a (A ++ [s.nextFd] ++ B) = 1 := by
+      intro a ha
+      have h4 := j4 a ha
+      have hne : s.nextFd ≠ a := fun e => Nat.lt_irrefl _ (e ▸ j1 a ha)
+      rw [hp] at h4
+      simp only [List.count_append, count_singleton_ne hne] at h4 ⊢
+      omega
+    rcases he with he | he
+    · unfold J
+      rw [hp', hn, hr, he]
+      exact ⟨fun a ha => Nat.lt_succ_of_lt (j1 a ha), j2, j3, hold⟩
+    · unfold J
+      rw [hp', hn, hr, he]
+      refine ⟨?_, ?_, fun a ha => List.mem_append_left _ (j3 a ha), ?_⟩
+      · intro a ha
+        rcases List.mem_append.mp ha with ha | ha
+        · exact Nat.lt_succ_of_lt (j1 a ha)
+        · rw [List.mem_singleton.mp ha]; exact Nat.lt_succ_self _
+      · rw [List.nodup_append]
+        refine ⟨j2, by simp, ?_⟩
+        intro a ha b hb e
+        rw [List.mem_singleton.mp hb] at e
+        exact Nat.lt_irrefl _ (e ▸ j1 a ha)
+      · intro a ha
+        rcases List.mem_append.mp ha with ha | ha
+        · exact hold a ha
+        · rw [List.mem_singleton.mp ha]
+          have hnr : s.nextFd ∉ s.results := fun hm => Nat.lt_irrefl _ (j1 _ (j3 _ hm))
+          have c1 : List.count s.nextFd s.results = 0 := List.count_eq_zero_of_not_mem hnr
+          have c2 : List.count s.nextFd (A ++ B) = 0 := by
+            rw [← hp]; exact List.count_eq_zero_of_not_mem hfresh
+          simp only [List.count_append, List.count_singleton, beq_self_eq_true, if_true] at c2 ⊢
+          omega
+  · unfold J
+    rw [hp', hn, he]
+    refine ⟨j1, j2, ?_, ?_⟩
+    · intro a ha
+      rw [hr] at ha
+      split at ha
+      · rename_i hfd
+        rcases List.mem_append.mp ha with ha | ha
+        · exact j3 a ha
+        · rw [List.mem_singleton.mp ha]; exact hfd
+      · exact j3 a ha
+    · intro a ha
+      have h4 := j4 a ha
+      rw [hp] at h4
+      rw [hr]
+      by_cases hfa : fd = a
+      · subst hfa
+        simp only [ha, if_true, List.count_append, List.count_cons, List.count_nil, beq_self_eq_true] at h4 ⊢
+        omega
+      · have hb : (fd == a) = false := by simpa using hfa
+        split
+        · simp only [List.count_append, List.count_cons, count_singleton_ne hfa, hb, Bool.false_eq_true,
+            if_false] at h4 ⊢
+          omega
+        · simp only [List.count_append, List.count_cons, hb, Bool.false_eq_true, if_false] at h4 ⊢
+          omega
+
+theorem J_init (n : Nat) : J (init n) := by
+  refine ⟨?_, ?_, ?_, ?_⟩
+  · intro a ha; simp [init] at ha
+  · simp [init]
+  · intro a ha; simp [init] at ha
+  · intro a ha; simp [init] at ha
+
+theorem InvJ_run (steps : List Step) : ∀ s, Inv s → J s → J (run s steps) := by
+  induction steps with
+  | nil => intro s _ h; exact h
+  | cons a rest ih => intro s hi h; exact ih (step s a) (Inv_step s a hi) (J_step s a hi.1 h)
+
+theorem J_of_reachable (s : State) (h : Reachable s) : J s := by
+  obtain ⟨n, steps, rfl⟩ := h
+  exact InvJ_run steps _ (Inv_init n) (J_init n)
+
+theorem results_at_most_once (s : State) (h : Reachable s) :
+    s.results.Nodup ∧ (∀ fd ∈ s.results, fd ∈ s.enrolled) ∧ s.enrolled.Nodup := by
+  obtain ⟨_, j2, j3, j4⟩ := J_of_reachable s h
+  refine ⟨?_, j3, j2⟩
+  rw [List.nodup_iff_count]
+  intro a
+  by_cases ha : a ∈ s.results
+  · have := j4 a (j3 a ha); omega
+  · rw [List.count_eq_zero_of_not_mem ha]; exact Nat.zero_le _
+
+theorem unanswered_are_pending (s : State) (h : Reachable s) :
+    ∀ fd, fd ∈ unanswered s ↔ (fd ∈ s.enrolled ∧ fd ∈ pending s) := by
+  obtain ⟨_, _, _, j4⟩ := J_of_reachable s h
+  intro fd
+  simp only [unanswered, List.mem_filter, decide_eq_true_eq]
+  constructor
+  · rintro ⟨he, hnr⟩
+    refine ⟨he, ?_⟩
+    have h4 := j4 fd he
+    rw [List.count_eq_zero_of_not_mem hnr] at h4
+    exact List.count_pos_iff.mp (by omega)
+  · rintro ⟨he, hp⟩
+    refine ⟨he, ?_⟩
+    intro hr
+    have h4 := j4 fd he
+    have c1 : 0 < List.count fd s.results := List.count_pos_iff.mpr hr
+    have c2 : 0 < List.count fd (pending s) := List.count_pos_iff.mpr hp
+    omega
+
+theorem register_unanswered_reachable :
+    let s := run (init 1) [.requestStop, .postSentinels, .exec 0, .enroll 0, .acceptorExit, .setFlag]
+    Final s = true ∧ s.inShutdown = true ∧ unanswered s = [0] := by
+  decide
+
+theorem no_enrolment_after_flag (s : State) (hs : s.inShutdown = true) (l : Nat) : step s (.enroll l) = s := by
+  simp only [step, hs]
+  split
+  · simp
+  · rfl
 
 end Gnet.Proofs.Handover
